@@ -18,13 +18,13 @@ CLAIMS = {
                 "(none when empty) and resets the position only after the write. Each instance is one inductive step; the family covers every (len,pos) in the thorough tier.",
         "design_ref": "DESIGN.md section 3 (C02)",
         "note": "Small-constant build; messages: Call<Empty> with 8 flag sets, Reply<()> with 3 continues values, Reply<&str> of one symbolic ASCII char, an unserializable value. "
-                "Histories are covered by induction over steps (prose), each step is a solver verdict. Stubs as listed in the evidence.",
+                "Histories are covered by induction over steps (prose), each step is a solver verdict. send_call/send_reply/send_error (enqueue + flush, a 2-deep coroutine nest) are decided in the 128/128 build only (in the small build the grow-and-retry loop keeps symbolic execution from finishing). Stubs as listed in the evidence.",
     },
     "C03": {
         "text": "Differential bounded model checking: zlink's to_slice and the real serde_json::to_writer run on the same symbolic value inside one formula, for every buffer "
                 "capacity 0..=N: equal length and bytes on success, BufferTooSmall exactly when the capacity is too small, never a byte written past the offered space, no raw "
                 "control byte. Values: every Unicode scalar as char/str/key, all ASCII pairs, full ranges of the integer types through the real itoa, non-finite floats, the serde "
-                "shapes (option, unit, newtype, tuple, struct, four enum variant kinds, sequences, maps, bytes, nesting), accepted and refused map-key kinds.",
+                "shapes (option, unit, newtype, tuple, struct, four enum variant kinds, empty and all-skipped containers followed by a sibling, sequences, maps, bytes, nesting), accepted and refused map-key kinds.",
         "design_ref": "DESIGN.md section 3 (C03)",
         "note": "Strings <= 2-3 scalars, collections <= 2 elements, depth <= 2. Finite floats: ryu::Buffer::format_finite is stubbed on both sides by a harness-chosen text "
                 "(digit generation is third-party); only the finite/non-finite classification is the real code there. Production buffer constants are irrelevant (to_slice hook).",
